@@ -2,5 +2,5 @@ SPECIFICATION Spec
 CONSTANTS
   Scenarios <- PreFix
   MaxTurns = 4
-  Defects = {"NoRecheck", "HotRearm", "StaleTurnClock", "StaleCountTrigger"}
+  Defects = {"NoRecheck", "HotRearm", "DoublePush", "StaleTurnClock", "StaleCountTrigger"}
 CHECK_DEADLOCK FALSE
